@@ -161,7 +161,8 @@ def run_forest(out, eng, tier):
 
     def explore(fname, args):
         f = eng.fn(">::" + fname, file=file)
-        ex = eng.explorer(extra=instantiation(), max_visits=n + 3)
+        # the universe of 4 multiplies the paths of union / sets; the thorough tier gives each exploration 15 minutes
+        ex = eng.explorer(extra=instantiation(), max_visits=n + 3, max_seconds=150 if tier == "quick" else 900)
 
         def body(ctx):
             cell = mkstate()
